@@ -27,7 +27,8 @@ def root_local(P, op, b, i, depth=0):
         if di == -1:
             t = fn.blocks[db]['term']
             c = t['fn']
-            if c['k'] == 'def' and (is_transparent(c['name']) or last(c['name']) in ('deref_mut', 'as_mut', 'borrow_mut', 'index_mut', 'by_ref')) \
+            owning_copy = last(c['name']) in ('to_vec', 'to_owned', 'clone', 'into_vec', 'into_boxed_slice') and 'Vec<' in (fn.local_ty(t['dest']['l']) or '')
+            if c['k'] == 'def' and not owning_copy and (is_transparent(c['name']) or last(c['name']) in ('deref_mut', 'as_mut', 'borrow_mut', 'index_mut', 'by_ref')) \
                     and t['args'] and t['args'][0]['k'] in ('copy', 'move'):
                 l = t['args'][0]['pl']['l']
                 b, i = db, len(fn.blocks[db]['stmts'])
@@ -194,7 +195,106 @@ class Canon:
         cr = strip(creation)
         if not (cr.k == 'call' and last(cr.name) in ('new', 'with_capacity', 'from_elem')) and not seq:
             return None
+        if any(a.kind in ('other:copy_from_slice', 'other:clone_from_slice') for a in seq):
+            tr = self.tracked_tail(b, creation, seq)
+            if tr is not None:
+                return creation, tr
         return creation, seq
+
+    def tracked_tail(self, use_block, creation, seq):
+        """A buffer `prefix || BE(v)` that is built once and whose tail is rewritten in place whenever it is needed
+        (`buf[len(prefix)..].copy_from_slice(&v.to_be_bytes())`) holds `prefix || BE(current v)` at a use when
+          * every write of the tail (the initial append and each overwrite) stores BE of the same variable v, at an offset
+            equal to the length of the prefix and with the length of the tail, and
+          * no assignment to v can reach the use without passing through a write of the tail again.
+        Then the sequence at the use is the one a freshly built `prefix || BE(v)` would have.  Returns that sequence or None."""
+        fn, P = self.fn, self.P
+        plain = [a for a in seq if not a.kind.startswith('other:')]
+        others = [a for a in seq if a.kind.startswith('other:')]
+        if any(a.kind not in ('other:index_mut', 'other:copy_from_slice', 'other:clone_from_slice') for a in others):
+            return None
+        if not plain or any(a.in_loop for a in plain):
+            return None
+        tail0 = plain[-1]
+        if tail0.kind != 'bytesplit':
+            return None
+        bt = be_call_type(strip(tail0.orig))
+        if not bt:
+            return None
+        width = bt[2]
+        prefix = plain[:-1]
+        cr = strip(creation)
+        pre_txt = self.seq(creation, prefix) if prefix or cr.k != 'param' else [self.c(cr)]
+        # length of the prefix, as the text a bound would have
+        def length_of(el):
+            if el.startswith('INIT:to_vec(') and el.endswith(')'):
+                return 'len(%s)' % el[len('INIT:to_vec('):-1]
+            if el.startswith('$') and all(ch.isalnum() or ch in '_$.' for ch in el):
+                return 'len(%s)' % el
+            return None
+        lens = [length_of(x) for x in pre_txt]
+        if len(lens) != 1 or lens[0] is None:
+            return None
+        off_txt = lens[0]
+        # the variable whose big-endian bytes form the tail
+        def be_arg(e):
+            e = strip(e)
+            b_ = be_call_type(e)
+            return e.args[0] if (b_ and b_[0] == 'to' and b_[2] == width and e.args) else None
+        writes = [(tail0.block, tail0.orig)]
+        ims = [a for a in others if a.kind == 'other:index_mut']
+        cps = [a for a in others if a.kind != 'other:index_mut']
+        if len(ims) != len(cps) or not cps:
+            return None
+        for a in ims:
+            r = strip(a.elem) if a.elem is not None else None
+            if r is None or not (r.k == 'aggr' and r.name == 'RangeFrom::RangeFrom' and self.bound(r.args[0]) == off_txt):
+                return None
+        for a in cps:
+            if be_arg(a.elem) is None:
+                return None
+            writes.append((a.block, a.elem))
+        var = None
+        for l, info in enumerate(fn.locals):
+            if not info.get('name') or l <= fn.arg_count:
+                continue
+            ok = True
+            for wb, we in writes:
+                cur = self.c(norm(P.local(l, wb, len(fn.blocks[wb]['stmts']))))
+                if cur != self.c(be_arg(we)):
+                    ok = False
+                    break
+            if ok:
+                var = l
+                break
+        if var is None:
+            return None
+        wblocks = {wb for wb, _ in writes}
+        # no assignment to v reaches the use without a fresh write of the tail
+        for (db, di, kind) in P.defs.get(var, []):
+            t = fn.blocks[db]['term']
+            if db in wblocks:
+                # the block ends with a write of the tail: the assignment inside it precedes that write
+                continue
+            if db == use_block:
+                return None
+            r = set()
+            for s_ in fn.succ(db):
+                if s_ in wblocks:
+                    continue
+                r |= fn.reachable(s_, removed_blocks=wblocks)
+            if use_block in r:
+                return None
+        # and the use is reached only after some write
+        if use_block in fn.reachable(0, removed_blocks=wblocks):
+            return None
+        src = strip(tail0.orig)
+        cur_v = norm(P.local(var, use_block, len(fn.blocks[use_block]['stmts'])))
+        orig = E('call', src.name, [cur_v], ty=src.ty, c=src.c)
+        arr = E('aggr', 'array', [be_byte(cur_v, bt[1], kk) for kk in range(width)], c={'akind': 'array'})
+        ap = Append(use_block, 'bytesplit', arr, 'push', False)
+        ap.orig = orig
+        return prefix + [ap]
 
     # ---- range bounds in linear normal form ------------------------------------------------------------------------
     def linear_of_text(self, s_, depth=0):
@@ -352,7 +452,10 @@ class Canon:
     def seq(self, creation, seq):
         out = []
         cr = strip(creation)
-        if not (cr.k == 'call' and last(cr.name) in ('new', 'with_capacity')):
+        if cr.k == 'param' and seq:
+            # `let mut v = z.to_vec(); v.extend(..)` is `Vec::new()` + extend(z) + ..: the copied slice is the first element
+            out.append(self.c(cr))
+        elif not (cr.k == 'call' and last(cr.name) in ('new', 'with_capacity')):
             out.append('INIT:' + self.c(cr))
         for a in seq:
             if a.kind == 'bytesplit':
